@@ -478,6 +478,37 @@ def corpus():
     return json.load(open(p)) if os.path.exists(p) else dict(frame=[], volt=[])
 
 
+# ---------------------------------------------------------------- bundled observation table
+def gen_deftab(rng):
+    nf = rng.choice([1, 2, 2, 3])
+    frames = []
+    for _ in range(nf):
+        df, dt = rng.choice(RES)
+        if rng.random() < 0.3:
+            dt = 1.4316557653333333; df = 1.3969838619232178
+        F = rng.randint(1, 8)
+        frames.append(dict(F=F, T=rng.randint(1, 6), df=hx(df), dt=hx(dt), seed=rng.randint(0, 10 ** 6)))
+    draws = []
+    for _ in range(rng.randint(2, 6)):
+        t = rng.choice(["chi2", "chi2", "gauss", "gauss"])
+        draws.append(dict(frame=rng.randrange(nf), zero=rng.random() < 0.5, type=t, share=rng.random() < 0.55))
+    return dict(frames=frames, draws=draws)
+
+
+def run_deftab(ctx, n):
+    cases = [gen_deftab(ctx.rng) for _ in range(n)]
+    impl = []
+    # one interpreter per scenario: what leaks between the draws of a scenario is the point, and the replay of a scenario is then self-contained
+    for part in C.run_impl_parallel("c11_impl", [dict(mode="deftab", cases=[c]) for c in cases]):
+        impl.extend(part)
+    for c, r in zip(cases, impl):
+        ctx.count(dict(k="deftab", c=c), nontrivial=True)
+        for d in c["draws"]:
+            ctx.tally("default_table_draw", d["type"] + ("" if d["type"] == "chi2" else (":shared" if d["share"] else ":indep")))
+        for key, msg in r["fails"]:
+            ctx.impl_violation(key, msg, dict(k="deftab", c=c))
+
+
 def run(ctx):
     rng = ctx.rng
     quick = ctx.tier == "quick"
@@ -485,7 +516,8 @@ def run(ctx):
                 "equal / unequal table lengths, zero_data, add_signal) on fresh, preloaded float64 and float32 frames of 1..48 pixels at 14 fixed and "
                 "random resolutions with df*dt >= 1 (including half-integer products); SNR round trips for tchans 1..2000; voltage noise-level "
                 "histories on DataStream / Antenna / MultiAntennaArray (1-4 antennas, 1-2 polarisations, own and background sources); statistical "
-                "acceptance at %.1f sigma on 2^14..2^17 draws; non-trivial = at least two operations" % SIGMA)
+                "acceptance at %.1f sigma on 2^14..2^17 draws; add_noise_from_obs with the bundled table (no arrays given): 2-6 draws per scenario over 1-3 frames of "
+                "different dt in one interpreter; non-trivial = at least two operations" % SIGMA)
     ctx.assumptions = ["numpy's Generator is the oracle: chisquare(k) has mean k and variance 2k, normal(m, s) has mean m and deviation s -- the moment theorems are "
                        "conditional on it; the statistical runs sample it at %.1f sigma (exploration, not proof)" % SIGMA,
                        "the recording generator subclasses numpy.random.Generator and delegates every call, so the bit stream is the real one",
@@ -497,12 +529,17 @@ def run(ctx):
     vc = cp.get("volt", []) + [gen_volt(rng, sample=(i % (8 if quick else 5) == 0)) for i in range(80 if quick else 1500)]
     run_volt(ctx, vc)
     run_stats(ctx, 18 if quick else 300)
+    run_deftab(ctx, 24 if quick else 400)
 
 
 def replay(ctx, payload):
     case = payload["case"]
     if "kind" in case and case.get("kind") in ("stream", "antenna", "array"):
         run_volt(ctx, [case])
+    elif case.get("k") == "deftab":
+        r = C.run_impl("c11_impl", dict(mode="deftab", cases=[case["c"]]))[0]
+        for key, msg in r["fails"]:
+            ctx.impl_violation(key, msg, case)
     elif "snrs" in case:
         r = C.run_impl("c11_impl", dict(mode="snr", cases=[case]))[0]
         print(json.dumps(r, indent=1)[:2000])
